@@ -54,6 +54,9 @@ def run(ctx):
     objs_ = c01.make_objects(ctx, res, "ssc")
     reqs, metas = [], []
     for sf, origin, log in objs_:
+        # the auto-detection clause: VERSION first, with every kind of value (also key-only and empty)
+        if next(iter(sf.keys()), None) == "VERSION" and ctx.rng.random() < .25:
+            sf["VERSION"] = ctx.rng.choice([None, "", "0.83", " 0.7 ", "x"]); log.append(["setkey", "VERSION", sf["VERSION"]])
         if not in_domain_ssc(sf):
             res.count("skipped_out_of_domain"); continue
         if not objs.scan_safe(ssc_params(sf), lead_nl=len(sf) == 0):
